@@ -757,6 +757,29 @@ func bases() []baseDoc {
 	add("parameters with defaults, enums and formats through references",
 		base(M{"/a": M{"get": op("a", M{"parameters": []any{R("#/components/parameters/P"), M{"name": "n", "in": "query", "schema": M{"type": "integer", "default": 5}}, M{"name": "e", "in": "header", "schema": R("#/components/schemas/E")}}})}},
 			M{"parameters": M{"P": M{"name": "p", "in": "query", "schema": M{"type": "string", "default": "d", "enum": []any{"d", "e"}}}}, "schemas": M{"E": M{"type": "string", "format": "uuid"}}}, "3.0.3"))
+	// references that point below a component, where the last token of the pointer is also the name
+	// of another component (and of the component itself): resolution goes by the whole pointer.
+	// The namesake components are not referenced themselves: Expand names a reference after its last
+	// token and refuses two targets under one name (a diagnostic by design)
+	add("references below a component whose last token names another component",
+		base(M{"/a": M{"post": op("a", M{"requestBody": jb(R("#/components/schemas/Pet/properties/owner"))})},
+			"/b": M{"post": op("b", M{"requestBody": jb(R("#/components/schemas/List/items"))})},
+			"/c": M{"post": op("c", M{"requestBody": jb(R("#/components/schemas/All/allOf/0"))})},
+			"/d": M{"post": op("d", M{"requestBody": jb(R("#/components/schemas/Pet/properties/Pet"))})},
+			"/e": M{"post": op("e", M{"requestBody": jb(R("#/components/schemas/Plain")), "parameters": []any{M{"name": "n", "in": "query", "schema": R("#/components/parameters/P/schema")}}})},
+			"/f": M{"post": op("f", M{"requestBody": jb(R("#/components/schemas/Pet/properties/tag"))})}},
+			M{"schemas": M{
+				"Pet":    M{"type": "object", "properties": M{"owner": M{"type": "object", "required": []any{"petOwnerId"}, "properties": M{"petOwnerId": M{"type": "integer"}}}, "Pet": M{"type": "string", "maxLength": 3}, "tag": strS}},
+				"owner":  M{"type": "object", "properties": M{"legacyName": M{"type": "string"}}},
+				"List":   M{"type": "array", "items": M{"type": "integer", "minimum": 1}},
+				"items":  M{"type": "string", "maxLength": 7},
+				"All":    M{"allOf": []any{M{"type": "object", "properties": M{"x": M{"type": "integer"}}}, M{"type": "object", "properties": M{"y": M{"type": "string"}}}}},
+				"0":      M{"type": "boolean"},
+				"schema": M{"type": "boolean"},
+				"tag":    M{"type": "integer"},
+				"Plain":  M{"type": "object", "properties": M{"z": M{"type": "integer"}}},
+			}, "parameters": M{"P": M{"name": "q", "in": "query", "schema": M{"type": "integer", "maximum": 9}}},
+				"responses": M{"Resp": M{"description": "r", "content": M{"application/json": M{"schema": M{"type": "array", "items": M{"type": "number"}}}}}, "schema": M{"description": "other"}}}, "3.0.3"))
 	add("constructs the IR build rewrites on the parsed API (masked media types, webhook path parameters)",
 		M{"openapi": "3.1.0", "info": M{"title": "t", "version": "1"},
 			"paths":    M{"/a": M{"post": op("a", M{"requestBody": R("#/components/requestBodies/B"), "responses": M{"200": R("#/components/responses/R")}})}, "/b": M{"put": op("b", M{"requestBody": R("#/components/requestBodies/B"), "responses": M{"200": R("#/components/responses/R")}})}},
@@ -986,10 +1009,10 @@ func cycles(thorough bool) []cycleCase {
 		// faults that live in another file than the construct that trips over them: the diagnostic names
 		// a file and a position, and the position has to be one of that file
 		cycleCase{"located: parameter style refused for a schema of another file", doc{Root: "root.json", Files: map[string]M{
-			"root.json": head(M{"/a": M{"get": op("a", M{"parameters": []any{M{"name": "q", "in": "query", "style": "deepObject", "explode": true, "schema": R("other.json#/components/schemas/S")}}})}}),
+			"root.json":  head(M{"/a": M{"get": op("a", M{"parameters": []any{M{"name": "q", "in": "query", "style": "deepObject", "explode": true, "schema": R("other.json#/components/schemas/S")}}})}}),
 			"other.json": {"A0pad": strings.Repeat("0123456789", 80), "components": M{"schemas": M{"S": M{"type": "string"}}}}}}, "error:invalid schema.type:style:explode"},
 		cycleCase{"located: parameter style refused for a member of a composition in another file", doc{Root: "root.json", Files: map[string]M{
-			"root.json": head(M{"/a": M{"get": op("a", M{"parameters": []any{M{"name": "c", "in": "cookie", "style": "form", "explode": true, "schema": R("other.json#/components/schemas/U")}}})}}),
+			"root.json":  head(M{"/a": M{"get": op("a", M{"parameters": []any{M{"name": "c", "in": "cookie", "style": "form", "explode": true, "schema": R("other.json#/components/schemas/U")}}})}}),
 			"other.json": {"A0pad": strings.Repeat("0123456789", 80), "components": M{"schemas": M{"U": M{"oneOf": []any{M{"type": "string"}, M{"type": "array", "items": M{"type": "string"}}}}}}}}}, "error:invalid schema.type:style:explode"},
 		cycleCase{"parameter cycle root -> external -> root", doc{Root: "root.json", Files: map[string]M{
 			"root.json": M{"openapi": "3.0.3", "info": M{"title": "t", "version": "1"}, "paths": M{"/a": M{"get": op("a", M{"parameters": []any{R("#/components/parameters/P")}})}}, "components": M{"parameters": M{"P": R("ext.json#/Q")}}},
